@@ -301,7 +301,7 @@ def _transcribe(body, binds, rename):
             out.extend(sub)
             i += 2
         else:
-            if t.kind == "id" and t.text in rename and not (i > 0 and is_p(body[i - 1], ".")):
+            if t.kind == "id" and t.text in rename and not (i > 0 and is_p(body[i - 1], ".") and not (i > 1 and is_p(body[i - 2], "."))):
                 out.append(t.clone(text=rename[t.text]))
             else:
                 out.append(t.clone())
@@ -325,7 +325,7 @@ def expand(macro, args):
     body_ids = set()
     b = macro.body
     for k, t in enumerate(b):
-        if t.kind == "id" and t.text in arg_ids and not (k > 0 and (is_p(b[k - 1], "$") or is_p(b[k - 1], ".") or is_p(b[k - 1], ":"))) \
+        if t.kind == "id" and t.text in arg_ids and not (k > 0 and (is_p(b[k - 1], "$") or (is_p(b[k - 1], ".") and not (k > 1 and is_p(b[k - 2], "."))) or is_p(b[k - 1], ":"))) \
                 and not (k + 1 < len(b) and (is_p(b[k + 1], "!") or (is_p(b[k + 1], ":") and k + 2 < len(b) and is_p(b[k + 2], ":")))):
             body_ids.add(t.text)
     rename = {n: n + "_m" for n in (set(_let_bound(macro.body)) & arg_ids) | body_ids}
